@@ -10,6 +10,38 @@ TRUST = ("z3 5.1.0 (thorough tier cross-checks every decided query with cvc5 1.4
          "semantics of the kernels; the stubs listed in the evidence file")
 
 CHECKS = {
+    "C07": dict(
+        text="The real Combiner (collect, light/heavylight/heavy components, every kernel generator, get_weight/get_fl11_weight "
+             "with nc_pos_charge) runs on symbolic electroweak parameters for each member of a partition; every observable "
+             "becomes a formal linear form (kernel identity x parton -> weight) and z3 proves total = light + massive flavours "
+             "(FFNS/FFN0), total = light (ZM-VFNS), full = massless + massive (FONLL), sum over the six quarks of the "
+             "coupling-restricted forms = unrestricted = 'all', for all parameter values over the lattice kind x process x "
+             "projectile x scheme x nf x order. Tests never compare two runs; here any branch edit that breaks a partition "
+             "is a sat model replayed on floats.",
+        note=TRUST + "; identities are on kernel lists, numerical equality of separately convolved runs follows from linearity "
+             "(C01); the heavy sum runs over flavours massive in the scheme, massless ones are checked for containment in light.",
+        technique="symbolic execution of the real Combiner (z3 proxies) + z3 equality of formal linear forms",
+        design="§4 C07",
+    ),
+    "C12": dict(
+        text="Combiner.apply_isospin runs on kernels with symbolic weights for all 16 up/down key patterns and z3 proves "
+             "sum_p w'_p f_p = sum_p w_p f'_p for ALL real Z, A != 0, weights and formal PDFs; the real Combiner for a symbolic "
+             "target is proved equal to the oracle-rotated proton run on the configuration lattice; the named-target table is "
+             "compared with the documented (Z,A), unknown names must raise ValueError.",
+        note=TRUST + "; named-target table is a finite concrete comparison, not symbolic.",
+        technique="symbolic execution of apply_isospin/Combiner (z3 proxies) + z3 NRA equality with the rotation oracle",
+        design="§4 C12",
+    ),
+    "C13": dict(
+        text="Pairs of symbolic runs of the real Combiner/weight code; z3 proves for all electroweak parameters: NC with the Z "
+             "terms switched off == EM (and eta_gammaZ ~ 1/(MZ2+Q2)); (e+,P) == (e-,-P); nubar/e- CC == nu/e+ CC on "
+             "charge-conjugated partons with a sign flip for parity-violating kinds, arbitrary CKM; invariance of massless "
+             "NC/EM kernel lists under exchange of equal-charge active quarks.",
+        note=TRUST + "; decoupling cells replace propagator_factor by its contract (1,E,E^2) with E=0; relations are on kernel "
+             "lists (linearity gives the convolved statement).",
+        technique="paired symbolic execution of the real Combiner (z3 proxies) + z3 NRA equality of linear forms",
+        design="§4 C13",
+    ),
     "C02": dict(
         text="The real CouplingConstants, CKM2Matrix, nc_weights/cc_weights(_even/_odd), heavy nc_weights and the kernel "
              "generators (light, heavy-light, heavy CC) are executed on symbolic electroweak parameters; z3 proves for ALL "
